@@ -456,7 +456,7 @@ func coverDocs(emit func(c01Case)) {
 			continue
 		}
 		base := func(vs vocabSet) map[string]interface{} {
-			m := map[string]interface{}{"id": "https://example.com/cover/" + T, "x-unknown": unknownProbe()}
+			m := map[string]interface{}{"id": "https://example.com/cover/" + T, "x-unknown": unknownProbe(), "@id": "https://example.com/cover/" + T + "#keyword-member"}
 			if !ty.Typeless {
 				m["type"] = ty.Name
 			}
